@@ -55,6 +55,17 @@ structure Cfg where
   signature : Name := []
 deriving DecidableEq, Repr, Inhabited
 
+/-- some stage of the content pipeline is not the identity -/
+def Cfg.hasCodec (c : Cfg) : Bool := c.compression != [] || c.encryption != [] || c.signature != []
+
+/-- Decoding the *empty* stream fails: for gzip and bzip2 (and their parallel variants), for
+    every encryption format and for every signature format (lz4, zstandard and brotli decode the
+    empty stream to the empty content).  An assumption about the codecs, validated by the
+    correspondence on every configuration. -/
+def Cfg.emptyDecodeFails (c : Cfg) : Bool :=
+  c.compression == n!"gzip" || c.compression == n!"parallelgzip" || c.compression == n!"bzip2" ||
+  c.compression == n!"parallelbzip2" || c.encryption != [] || c.signature != []
+
 def lookupTable (tab : List (Name × Name)) (k : Name) : Option Name :=
   (tab.find? (fun kv => kv.1 == k)).map (·.2)
 
